@@ -1,6 +1,6 @@
 (* C02 — property theorems (statements in full; proofs in Proofs*.v). *)
 From Coq Require Import List NArith Bool.
-From LTV.C02 Require Import Model ProofsA ProofsB Proofs.
+From LTV.C02 Require Import Model ProofsA ProofsB ProofsC Proofs ProofsD.
 Import ListNotations.
 Local Open Scope N_scope.
 
@@ -98,3 +98,76 @@ Theorem mark_completed_exact : forall c s idx s',
   s_done s' = set_nth (s_done s) (N.to_nat idx) /\ s_store s' = s_store s.
 Proof. exact Proofs.mark_completed_exact. Qed.
 Print Assumptions mark_completed_exact.
+
+(* a store always has one entry per file after any operation list *)
+Theorem reachable_store_length : forall cs lay ops,
+  length (s_store (fst (run (mk_cfg cs lay) (init_state (mk_cfg cs lay)) ops))) =
+  length (c_files (mk_cfg cs lay)).
+Proof. exact ProofsD.reachable_store_length. Qed.
+Print Assumptions reachable_store_length.
+
+(* [raw st i o] = byte o of file i on disk (0 beyond the current end: sparse / not yet resized).
+   A successful from_buffer through a chunk [off, off+len) at position pos changes exactly the
+   bytes of non-padding files located at stream positions [off+pos, off+pos+|data|), to data in
+   order, and no other byte of any file. *)
+Theorem write_frame : forall cs lay s off len pos data rpos rn s' ps rd cmp,
+  let c := mk_cfg cs lay in
+  length (s_store s) = length (c_files c) -> len < two32 ->
+  pos + N.of_nat (length data) < two32 ->
+  do_chunk c s off len true pos data rpos rn = (s', OutChunk ps WOk rd cmp) ->
+  length (s_store s') = length (c_files c) /\
+  pos + N.of_nat (length data) <= len /\ off + len <= total lay /\
+  forall i f o, nth_error (c_files c) i = Some f -> o < f_size f ->
+    raw (s_store s') i o =
+      if negb (f_pad f) && (off + pos <=? f_off f + o) &&
+         (f_off f + o <? off + pos + N.of_nat (length data))
+      then nth (N.to_nat (f_off f + o - (off + pos))) data 0
+      else raw (s_store s) i o.
+Proof. exact ProofsD.write_frame. Qed.
+Print Assumptions write_frame.
+
+(* to_buffer returns, per position, the byte written through this chunk if any, otherwise the
+   byte of the file located at that stream position (0 for padding entries) *)
+Theorem read_exact : forall cs lay s off len w pos data rpos rn s' ps wr bs cmp,
+  let c := mk_cfg cs lay in
+  length (s_store s) = length (c_files c) -> len < two32 ->
+  pos + N.of_nat (length data) < two32 -> rpos + rn < two32 -> wr <> WErr ->
+  do_chunk c s off len w pos data rpos rn = (s', OutChunk ps wr (Some bs) cmp) ->
+  length bs = N.to_nat rn /\ rpos + rn <= len /\
+  forall k i f o, k < rn -> located (c_files c) (off + rpos + k) i o ->
+    nth_error (c_files c) i = Some f ->
+    nth (N.to_nat k) bs 0 =
+      if (match wr with WOk => true | _ => false end) && (pos <=? rpos + k) &&
+         (rpos + k <? pos + N.of_nat (length data))
+      then nth (N.to_nat (rpos + k - pos)) data 0
+      else if f_pad f then 0 else raw (s_store s) i o.
+Proof. exact ProofsD.read_exact. Qed.
+Print Assumptions read_exact.
+
+Theorem read_after_write : forall cs lay s off len pos data s' ps bs cmp,
+  let c := mk_cfg cs lay in
+  length (s_store s) = length (c_files c) -> len < two32 ->
+  pos + N.of_nat (length data) < two32 ->
+  do_chunk c s off len true pos data pos (N.of_nat (length data)) =
+    (s', OutChunk ps WOk (Some bs) cmp) ->
+  bs = data.
+Proof. exact ProofsD.read_after_write. Qed.
+Print Assumptions read_after_write.
+
+(* two writes to non-overlapping stream ranges leave the same file bytes in either order *)
+Theorem order_independent :
+  forall cs lay s offA lenA posA dataA offB lenB posB dataB
+         sA sAB sB sBA psA psB psA' psB' rdA rdB rdA' rdB' cA cB cA' cB' ra rb rc rd re rf rg rh,
+  let c := mk_cfg cs lay in
+  length (s_store s) = length (c_files c) -> lenA < two32 -> lenB < two32 ->
+  posA + N.of_nat (length dataA) < two32 -> posB + N.of_nat (length dataB) < two32 ->
+  (offA + posA + N.of_nat (length dataA) <= offB + posB \/
+   offB + posB + N.of_nat (length dataB) <= offA + posA) ->
+  do_chunk c s offA lenA true posA dataA ra rb = (sA, OutChunk psA WOk rdA cA) ->
+  do_chunk c sA offB lenB true posB dataB rc rd = (sAB, OutChunk psB WOk rdB cB) ->
+  do_chunk c s offB lenB true posB dataB re rf = (sB, OutChunk psB' WOk rdB' cB') ->
+  do_chunk c sB offA lenA true posA dataA rg rh = (sBA, OutChunk psA' WOk rdA' cA') ->
+  forall i f o, nth_error (c_files c) i = Some f -> o < f_size f ->
+    raw (s_store sAB) i o = raw (s_store sBA) i o.
+Proof. exact ProofsD.order_independent. Qed.
+Print Assumptions order_independent.
